@@ -11,6 +11,22 @@ claimed={
  "C17":dict(cat="proof",text="bint.Decode/size/Encode, eth.decode, Uint64/Byte/Bytes.UnmarshalJSON, Bytes.Write under contract: exact values, error iff non-hex/odd, total (no panic on any token), no stale bytes; unbounded in input length and value",
    note="Assumed: encoding/hex.Decode contract, UTF-8 range-over-string summary (ASCII exact), fmt.Errorf; Encode/Decode round-trip stated per byte (all k) rather than as a single composed lemma; DecodeHex/EncodeUint64 (strconv) not under contract.",ref="DESIGN.md §5 C17"),
 }
+G="ghost database of the task's own (source, integration) pair (cur/hash/rows; committed D, working copy W) threaded through contracts on Task.Converge/latest/latestDependency/load/insert/update/Delete and dig.Integration.Delete; the SQL constants of the real code are parsed on every run and given relational semantics; the committed state changes only at pgx Commit, where the invariant parts and the commit clauses are proved (this is what replaces enumerating crash points and histories). "
+A="Assumed: pgx transaction semantics (commit atomic, error = no effect), Destination.Insert adds each block's rows once or fails without effect (COPY all-or-nothing), Source.Get returns the requested consecutive blocks or an error, goroutines of errgroup run at their launch point (sequentialisation), sorting a permutation of b0..b0+n-1 yields the identity arrangement (stated at the call of slices.SortFunc), block numbers < 2^62, batch_size and concurrency < 2^20. One writer per pair (see C20). "
+claimed.update({
+ "C01":dict(cat="proof",text=G+"C01: a successful step loads blocks localNum+1..localNum+k (1<=k<=delta<=batch) for every batch size and concurrency (symbolic bit-vectors, incl. batch<concurrency and non-divisible pairs), adds their rows exactly once and records position localNum+k with the last block's hash; no block's rows are present twice; the position advances from the top.",
+   note=A+"Not decided: that failing RPC/DB calls eventually stop (liveness); what a block contributes (the declared projection) is C09-C13, here an uninterpreted 'rows of block n'.",ref="DESIGN.md §4 C01"),
+ "C02":dict(cat="proof",text=G+"C02: every state published by a Commit (and by any statement issued outside the open transaction, which would be an autocommit) satisfies the invariant: no row above a recorded position, rows at most once; the cursor row and the rows are written on the same transaction handle (connection identity is tracked; Begin/Commit discipline is checked); a failing step publishes at most the unwound state of commit#1.",
+   note=A+"Crash = any point: D changes only at Commit, so the commit obligations cover every crash point; faults inside pgx/PostgreSQL themselves are not modelled. Retry-completes-as-if-no-fault is covered only as 'the contract has no precondition beyond the invariant'.",ref="DESIGN.md §4 C02"),
+ "C03":dict(cat="proof",text=G+"C03 (safety half): a reorg is raised exactly when the first loaded block's 32-byte parent differs from the recorded hash; Task.Delete removes positions >= n and every row above the remaining position; the unwinding loop keeps 'no row above the recorded position' for W; partitions of one load must link; dig.Integration.Delete refines the assumed Destination.Delete (block_num >= n, own pair, given connection).",
+   note=A+"Not decided: convergence 'once the source settles' (eventuality); cache staleness after a reorg; linkage of the whole stored chain across steps is carried only through the recorded hash of the top position.",ref="DESIGN.md §4 C03"),
+ "C04":dict(cat="proof",text=G+"C04: every statement on shovel.task_updates or the integration table in task.go/dig.go carries src_name = $i and ig_name = $j conjuncts/columns (parsed from the real SQL) bound to the task's own names (obligations sql-pair[...]); callees act on the caller's pair; the ghost state of other pairs is never touched (frame by construction of the statements).",
+   note=A+"Not yet proved: that loadTasks gives Task.srcName/destConfig.Name, the context values and dig.Integration.name the same pair (names equality), row stamping through lwc.get; interleavings through the shared block cache (only lock ownership, C18) ; PruneTask is deliberately excluded.",ref="DESIGN.md §4 C04"),
+ "C05":dict(cat="proof",text=G+"C05: with dependencies, no new position exceeds the position returned by the dependency query, and nothing is written when it returns none; the dependency query is restricted to the task's own source. KNOWN FINDING (F14): the query ignores referenced integrations that have no rows yet.",
+   note=A+"The dependency CTE is outside the parsed SQL subset and bound by normalised text to a hand-written semantics (min over referenced integrations WITH rows); ValidateFilterRefs' derivation of Dependencies is not yet under contract.",ref="DESIGN.md §4 C05"),
+ "C06":dict(cat="proof",text=G+"C06: latest() resumes from the top recorded position, else start-1 (or head-1); ErrDone is returned before any write once position >= stop; every published position lies in [start-1, stop] and every added row in [start, stop], for symbolic start/stop/head/batch.",
+   note=A+"jrpc2.Client.Hash/Latest nil-result handling (F9) is part of C07 and not yet under contract.",ref="DESIGN.md §4 C06"),
+})
 na_reason={p["id"]:"check not built yet (work in progress; see DESIGN.md §9 build order)" for p in props}
 m={"version":1,
  "setup_cmd":"cd /verif && GOFLAGS=-mod=mod GOPROXY=off GOSUMDB=off GOTOOLCHAIN=local go build -o bin/vc ./cmd/vc && (cd /repo && GOFLAGS=-mod=mod GOPROXY=off GOSUMDB=off GOTOOLCHAIN=local go build -tags verif ./... )",
